@@ -454,7 +454,28 @@ Definition apply_oracles (gone : string -> bool) (vers : list string) (ign : str
            every version of the run: a field ignored at one version and owned at another
            is pruned when the manager switches version, by design of the per-version sets *)
         (if isplain && forallb (fun pn : path * bool => forallb (fun v => Bool.eqb (ign v (fst pn)) (ign ver (fst pn))) vers) (nodes s tr cfg)
-         then chk (agrees s tr cfg res) "prop C19 values of ignored fields are merged like any other" else [])
+         then
+           (let bad := filter (fun pn : path * bool =>
+                                 match resolve_path s tr res (fst pn), resolve_path s tr cfg (fst pn) with
+                                 | Some o, Some c => if snd pn then negb (rnode_eqb c o) else false
+                                 | _, _ => true
+                                 end) (nodes s tr cfg) in
+            (* the one known deviation (F19): the applier abandons its last owned field
+               inside a struct; prune removes the struct (EnsureNamedFieldsAreMembers) and
+               the ignored fields of the configuration inside it, which nobody can own,
+               are not added back *)
+            let pruned_with_struct (p : path) : bool :=
+              ign ver p &&
+              existsb (fun q => negb (Nat.eqb (List.length q) (List.length p)) && negb (Nat.eqb (List.length q) 0)
+                                && existsb (fun l => is_prefix q l) (ps_elems last)) (prefixes p) in
+            if agrees s tr cfg res then []
+            else if forallb (fun pn : path * bool => pruned_with_struct (fst pn) || negb (ign ver (fst pn))) bad
+                    && existsb (fun pn : path * bool => pruned_with_struct (fst pn)) bad
+                    && forallb (fun pn : path * bool => ign ver (fst pn) ||
+                                                        existsb (fun b : path * bool => ign ver (fst b) && is_prefix (fst pn) (fst b)) bad) bad
+            then ["prop C19 values of ignored fields are merged like any other: an ignored field of the configuration is pruned together with the struct in which the applier abandons its last owned field"]
+            else ["prop C19 values of ignored fields are merged like any other"])
+         else [])
     | _, _ => []
     end
   else if String.eqb prop "C20" then
